@@ -221,6 +221,16 @@ def sched_cells(tier: str) -> dict[str, Callable[[], tuple[Spec, dict, Optional[
         s = S2cross(True)
         return s, {"e0": (600, 3000), "e1": (60, int(1.5 * H)), "e2": (H, 2 * H)}, None
     cells["S2cross[busy,bound-slot-full]"] = busy_narrow
+
+    # an idle prefix that only the used-seconds counter knows (dependency offset from another resource / a team member waiting for
+    # its partner), a task finishing inside that slot, and a later task booking the rest
+    def cross_prefix():
+        return S2cross(), {"e0": (600, 3000), "e1": (60, 1500), "e2": (H, 2 * H)}, None
+    cells["S2cross[prefix]"] = cross_prefix
+
+    def mixed_prefix():
+        return S3mixed(), {"e0": (600, 3000), "e1": (60, 1500), "e2": (H, 2 * H)}, None
+    cells["S3mixed[prefix]"] = mixed_prefix
     add("S3mixed", S3mixed, 60, int(2.5 * H))
     add("S2levels[outer-gap]", lambda: S2levels("outer-gap"), 60, 2 * H)
     add("S2levels[inner-onstart]", lambda: S2levels("inner-onstart"), 60, 2 * H)
@@ -348,7 +358,7 @@ SX_META = {
 # which cells of the shared family each property runs in the QUICK tier (the thorough tier runs the whole family)
 QUICK_CELLS = {
     "C01": ["S1x2[eff=1.0]", "S1x2[eff=0.5]", "S2x2[eff=1.0]", "S2x2[eff=2.0]", "S1x2[res=900]", "S1x3[bands=000]", "S2x2+1", "S3team", "S3mixed", "S4alt",
-            "S2cross", "S2cross[busy]", "S7[same-deadline]", "S7[chain]", "S2x2[gap=29min]", "S2x2[onstart]"],
+            "S2cross[prefix]", "S3mixed[prefix]", "S7[same-deadline]", "S7[chain]", "S2x2[gap=29min]", "S2x2[onstart]"],
     "C03": ["S1x2[eff=1.0]", "S1x2[eff=0.5]", "S1x2[eff=2.0]", "S2x2[eff=1.0]", "S2x2[res=900]", "S1x3[bands=010]", "S3team", "S3mixed", "S4alt", "S2cross",
             "S7[same-deadline]", "S7[container]", "S5containers", "S2x2+1", "S2x2[gap=29min]", "S6[dres]"],
     "C04": ["S2x2[eff=1.0]", "S2x2[gap=29min]", "S2x2[gap=1h]", "S2x2[gap=1d]", "S2x2[onstart]", "S5containers", "S5dated", "S2x2+milestone", "S2x2+milestone[gap=29min]",
